@@ -176,6 +176,10 @@ RichUnary(m) ==
        [op |-> "group", g |-> "mod2", sel |-> 0], [op |-> "group", g |-> "mod2", sel |-> 1],
        [op |-> "group", g |-> "const", sel |-> 7], [op |-> "group", g |-> "id", sel |-> 2],
        [op |-> "group", g |-> "id", sel |-> 99],
+       [op |-> "group", g |-> "fs2", sel |-> 0], [op |-> "group", g |-> "fs2", sel |-> 1],
+       [op |-> "group", g |-> "mix2", sel |-> 0], [op |-> "group", g |-> "mix2", sel |-> 1],
+       [op |-> "sort", key |-> "big", rev |-> FALSE], [op |-> "sort", key |-> "big", rev |-> TRUE],
+       [op |-> "sort", key |-> "biginf", rev |-> FALSE], [op |-> "sort", key |-> "biginf", rev |-> TRUE],
        [op |-> "catch", E |-> "Exception"],
        [op |-> "copy", freeze |-> FALSE],
        [op |-> "prefetch", w |-> 1, bs |-> 1, cfe |-> "none"],
